@@ -63,9 +63,11 @@ class Hist:
         self.ncmds = 0
         self.nstripes_checked = 0
         self.model_steps = 0
+        self.inconclusive = 0
         self.log = []
         self.have_content = False
         self.rinfo = {}
+        self._dec = {}
 
     def fs_op(self, op):
         a = self.arr
@@ -102,10 +104,23 @@ class Hist:
             if os.path.isfile(p):
                 a.write(op[1], op[2], open(p, 'rb').read()[:op[3]])
         elif k == 'corrupt':
+            # silent corruption of a FULLY synced file (every block BLK in the content file, same size and mtime):
+            # damage, not a version.  Files that are not fully synced are left alone.
             base = os.path.join(a.root, op[1])
-            files = sorted(os.path.join(r, n) for r, _, fs in os.walk(base) for n in fs if os.path.getsize(os.path.join(r, n)) > 0)
-            if files:
-                q = files[op[2] % len(files)]
+            try:
+                c = a.content()
+            except Exception:
+                c = None
+            cands = []
+            if c:
+                for f in c['disks'].get(op[1], {'files': []})['files']:
+                    q = os.path.join(base, f['sub'].decode('latin1'))
+                    if f['size'] > 0 and all(b[0] == 'BLK' for b in f['blocks']) and os.path.isfile(q) and not os.path.islink(q):
+                        st = os.stat(q)
+                        if st.st_size == f['size'] and st.st_mtime_ns // 10**9 == f['sec'] and (f['nsec'] < 0 or st.st_mtime_ns % 10**9 == f['nsec']):
+                            cands.append(q)
+            if cands:
+                q = sorted(cands)[op[2] % len(cands)]
                 st = os.stat(q)
                 data = bytearray(open(q, 'rb').read())
                 off = (op[2] * 7919) % len(data)
@@ -114,21 +129,6 @@ class Hist:
                 with open(q, 'r+b') as f:
                     f.write(data)
                 os.utime(q, ns=(st.st_atime_ns, st.st_mtime_ns))
-                # damage to a synced file is NOT a version; but if this very version was never synced, the bytes now on
-                # disk are simply the version the next sync will record
-                rel = os.path.relpath(q, base)
-                synced = False
-                try:
-                    c = a.content()
-                    for f in c['disks'].get(op[1], {'files': []})['files']:
-                        if f['sub'].decode('latin1') == rel and f['size'] == len(data) and f['sec'] == st.st_mtime_ns // 10**9 \
-                                and all(b[0] == 'BLK' for b in f['blocks']):
-                            synced = True
-                except Exception:
-                    pass
-                if not synced:
-                    vs = a.store.get((op[1], rel), [])
-                    a.store[(op[1], rel)] = [v for v in vs if not (len(v[0]) == len(data) and v[1] == st.st_mtime_ns)] + [(bytes(data), st.st_mtime_ns)]
         elif k == 'wipedisk':
             base = os.path.join(a.root, op[1])
             for n in os.listdir(base):
@@ -211,22 +211,51 @@ class Hist:
                     if real[pos * a.bs:(pos + 1) * a.bs] == exp:
                         new[l][pos] = e
                         continue
-                blocks = stripes.get(pos, {})
-                if blocks and all(b[0] == 'BLK' for b in blocks.values()):
-                    vec = [0] * ndpos
-                    ok = True
-                    for dp, (s, d, f, i, h) in blocks.items():
-                        v = a.find_version(d, f)
-                        if v is None:
-                            ok = False
-                            break
-                        vec[dp] = br.bid(v[i * a.bs:(i + 1) * a.bs])
-                    if ok:
-                        new[l][pos] = ['E%d' % ndpos] + list(map(str, vec))
-                        continue
+                vec = self.decode_stripe(st, stripes, pos)
+                if vec is not None:
+                    new[l][pos] = ['E%d' % ndpos] + list(map(str, vec))
+                    continue
                 if pos * a.bs < len(real):
                     new[l][pos] = ['J%d' % (pos + 1)]
         br.parity = new
+
+    def decode_stripe(self, st, stripes, pos):
+        """what do the real parity blocks of this stripe encode?  BLK blocks are known (recorded version), empty
+        positions are zero; CHG/REP/DELETED positions are solved for from the first levels and verified with all."""
+        a, br = self.arr, self.br
+        key = ('dec', pos, tuple(a.parity_bytes(l)[pos * a.bs:(pos + 1) * a.bs] for l in range(a.np)))
+        if key in self._dec:
+            return self._dec[key]
+        blocks = stripes.get(pos, {})
+        data = [bytes(a.bs)] * a.nd
+        unknown = []
+        res = None
+        ok = True
+        for dp, (s_, d, f, i, h) in blocks.items():
+            if s_ == 'BLK':
+                v = a.find_version(d, f)
+                if v is None:
+                    ok = False
+                    break
+                blk = v[i * a.bs:(i + 1) * a.bs]
+                data[dp] = blk + bytes(a.bs - len(blk))
+            else:
+                unknown.append(dp)
+        par = [k[0] for k in [(x,) for x in key[2]]]
+        if ok and all(len(p) == a.bs for p in par) and len(unknown) <= a.np:
+            sol = gfref.solve_unknown('c', par, data, unknown)
+            if sol is not None:
+                for u, b in zip(unknown, sol):
+                    data[u] = b
+                exp = gfref.gen('c', a.np, data)
+                if all(exp[l] == par[l] for l in range(a.np)) and (len(unknown) < a.np or not unknown):
+                    res = [br.bid(b) for b in data]
+                elif all(exp[l] == par[l] for l in range(a.np)):
+                    # as many unknowns as levels: every content is "consistent"; only trust it if all solved blocks are known ones
+                    if all(bytes(b) in br.bids for b in sol):
+                        res = [br.bid(b) for b in data]
+        self._dec[key] = res
+        return res
 
     def sync_with_model(self, args):
         """one-step refinement of the sync loop: (1) real sync killed before the first parity write leaves the post-scan
@@ -267,6 +296,7 @@ class Hist:
         fs_toks = br.ser_fs()
         c_toks = br.ser_content(st1)
         p_toks = br.ser_parity()
+        self.model_in_parity = [list(lv) for lv in br.parity]
         r = a.run(*args)
         self.log.append(args + [r.rc])
         try:
@@ -302,6 +332,10 @@ class Hist:
                 else:
                     out += ['T'] + t[k + 1:k + 4]; k += 4
             return out
+        junk_used = any(e[0][0] == 'J' for lv in self.model_in_parity for e in lv)
+        if norm(mc) != norm(rc) and junk_used:
+            self.inconclusive += 1
+            return
         if norm(mc) != norm(rc):
             # which side satisfies the property?  the invariants on the real state are judged separately (invariants());
             # here the disagreement means the model no longer describes the code
